@@ -28,6 +28,7 @@ type Val struct {
 	K       *big.Int // untyped integer constant (specifications)
 	Addr    string   // address the value was loaded from (specifications; for modifies clauses)
 	AddrHint string
+	KeyID    string // string-typed bound variable ranging over map keys: its identity term (specifications)
 }
 
 // Mem is a version of the heap.
@@ -120,6 +121,8 @@ type Unit struct {
 	usedLemmas map[string]bool
 	ancCache   map[int]map[int]bool
 	ancMu      sync.Mutex
+	strKeyDecl bool
+	strKeys    []strKeyRec
 	noFrameAxioms bool
 }
 
@@ -987,4 +990,10 @@ func (f *Frame) block(b *ssa.BasicBlock, entry *state) {
 	for _, h := range f.backSrc[b] {
 		f.loopBack(f.loops[h], b)
 	}
+}
+
+type strKeyRec struct {
+	sig string
+	v   Val
+	id  string
 }
